@@ -631,6 +631,14 @@ def schOfSexp : Nat → SExp → Option Sch.Sch
     match items with
     | .atom "_" => pure (.array lo hi pre true .any)
     | it => do pure (.array lo hi pre false (← schOfSexp f it))
+  | f + 1, .list [.atom "obj", .list props, ap, .list req, .atom lo, hi] => do
+    let props ← schKLOfSexp f props
+    let req ← req.mapM (fun r => match r with | .atom a => some a | _ => none)
+    let lo ← lo.toNat?
+    let hi ← optAtom (fun s => s.toNat?) hi
+    match ap with
+    | .atom "_" => pure (.object props true .any req lo hi)
+    | a => do pure (.object props false (← schOfSexp f a) req lo hi)
   | f + 1, .list (.atom "anyof" :: xs) => (schLOfSexp f xs).map .anyOf
   | f + 1, .list (.atom "oneof" :: xs) => (schLOfSexp f xs).map .oneOf
   | _ + 1, _ => none
@@ -638,6 +646,11 @@ def schLOfSexp : Nat → List SExp → Option Sch.SchL
   | 0, _ => none
   | _ + 1, [] => some .nil
   | f + 1, x :: xs => do pure (.cons (← schOfSexp f x) (← schLOfSexp f xs))
+def schKLOfSexp : Nat → List SExp → Option Sch.SchKL
+  | 0, _ => none
+  | _ + 1, [] => some .nil
+  | f + 1, .list [.atom k, x] :: xs => do pure (.cons k (← schOfSexp f x) (← schKLOfSexp f xs))
+  | _ + 1, _ => none
 end
 
 /-- `sch isect <budget> (pair A B)` -> `ok <A ∧ B>` | `err` (budget exhausted / multipleOf values do not combine) -/
